@@ -34,7 +34,7 @@ RULE = (
     "distinct interleavings (decision sequences) per scenario; non-trivial = a schedule with at least one context "
     "switch between two operations on the shared lookup."
 )
-RULE += ' added since: scenario modify-first, quiescence oracle (after all threads finish one more get must return a template of the newest source), cached defs with two cache types recorded by the backend, module-namespace race, render templates under /sub with relative URIs and root-level decoys.'
+RULE += ' added since: scenario modify-first, quiescence oracle (after all threads finish one more get must return a template of the newest source), cached defs with two cache types recorded by the backend, module-namespace race, render templates under /sub with relative URIs and root-level decoys. three free-running renders racing for the first use of a cached def / page / block with the Beaker backend.'
 ASSUMPTIONS = [
     "single bytecodes / dict operations are atomic (GIL builds); interleavings inside C-level operations are not explored",
     "file modifications are made atomic with respect to the scheduler (content and mtime change together)",
